@@ -267,7 +267,7 @@ theorem tamper_detected_removed (C : Crypto) (reg : Option (List (List Nat × Na
   have hok := verify_sound C reg _ hv (by simpa using hh)
   by_cases h0 : i = 0
   · subst h0
-    obtain ⟨g, hg⟩ := hok.1
+    obtain ⟨g, hg, _⟩ := hok.1
     simp only at hg
     rw [blockAt_sdel_same] at hg
     cases hg
@@ -340,14 +340,39 @@ theorem tamper_transactions_witness :
   refine ⟨c, b, txs ++ [.put 3 3], ?_, by decide, by decide, by decide⟩
   exact Built.step g c b (Built.init _ _ _) (by rfl) (by decide) (by decide)
 
-/-- PARTIAL (missing: injectivity of `txRoot`, which fails for a duplicated tail as shown above; for lists of
-    equal length it follows from `HashInjOn` + equal hash lengths but is not proved here).  Every alteration of
-    the `transactions` of a non-genesis block that changes the Merkle root is detected — no crypto hypothesis
-    needed, for every chain length. -/
+/-- genesis (`i = 0`), after repo commit 8e53c5a4 (`verify_chain` now calls `verify_tx_root` on the genesis
+    block): PARTIAL (missing: injectivity of `txRoot` — the duplicated-tail weakness of `merkle_root` applies to
+    a genesis block with an odd number ≥ 3 of transactions just as to any other block; same-length alterations
+    are covered at full strength by `tamper_detected_transactions`).  Every alteration of the genesis block's
+    `transactions` that changes the Merkle root is detected, for every chain with at least one more block. -/
+theorem tamper_detected_genesis_transactions_partial (C : Crypto) (reg : Option (List (List Nat × Nat))) (c : ChainSt)
+    (hinv : Inv C reg c) (hh : 1 ≤ c.height) (o : Block) (ho : blockAt c.store 0 = some o)
+    (txs' : List Tx) (hne : txRoot C txs' ≠ txRoot C o.txs) :
+    verifyChain C reg (withBlock c 0 { o with txs := txs' }) ≠ none := by
+  intro hv
+  have hok := verify_sound C reg _ hv (by simpa [withBlock] using hh)
+  obtain ⟨g, hg, hroot⟩ := hok.1
+  simp only [withBlock] at hg
+  rw [blockAt_sput_same] at hg
+  cases hg
+  obtain ⟨g0, hg0, hroot0⟩ := hinv.ok.1
+  rw [ho] at hg0; cases hg0
+  simp only at hroot
+  rw [hroot0] at hroot
+  exact hne hroot.symm
+
+/-- PARTIAL (missing: injectivity of `txRoot` across DIFFERENT lengths, which fails for a duplicated tail as shown
+    above; for equal lengths see `tamper_detected_transactions`).  Every alteration of the `transactions` of ANY
+    stored block `0..=height` that changes the Merkle root is detected — no crypto hypothesis needed, for every
+    chain length. -/
 theorem tamper_detected_transactions_partial (C : Crypto) (reg : Option (List (List Nat × Nat))) (c : ChainSt)
-    (hinv : Inv C reg c) (i : Nat) (h1 : 1 ≤ i) (h2 : i ≤ c.height) (o : Block) (ho : blockAt c.store i = some o)
+    (hinv : Inv C reg c) (hh : 1 ≤ c.height) (i : Nat) (h2 : i ≤ c.height) (o : Block) (ho : blockAt c.store i = some o)
     (txs' : List Tx) (hne : txRoot C txs' ≠ txRoot C o.txs) :
     verifyChain C reg (withBlock c i { o with txs := txs' }) ≠ none := by
+  by_cases h0 : i = 0
+  · subst h0
+    exact tamper_detected_genesis_transactions_partial C reg c hinv hh o ho txs' hne
+  have h1 : 1 ≤ i := by omega
   intro hv
   have hok := verify_sound C reg _ hv (by simp [withBlock]; omega)
   obtain ⟨p, b, _, hb, hc⟩ := hok.2 i h1 (by simpa [withBlock] using h2)
@@ -362,14 +387,53 @@ theorem tamper_detected_transactions_partial (C : Crypto) (reg : Option (List (L
   rw [e2] at e1
   exact hne e1.symm
 
-/-- WITNESS: the genesis block's `transactions` are never compared with its `tx_root`
-    (`verify_chain` starts its checks at block 1): forged genesis transactions go unnoticed. -/
-theorem tamper_genesis_transactions_witness :
+/-- REGRESSION WITNESS for repo commit 8e53c5a4: on the same tampered chain (forged transactions in the stored
+    genesis block) the old `verify_chain` (`verifyChainOld`: checks start at block 1) answers `Ok`, the current one
+    answers `tx_root does not match transactions`. -/
+theorem tamper_genesis_transactions_fixed_witness :
     ∃ (c : ChainSt) (o : Block), Built drvCrypto (some [([1], 1)]) c ∧ 1 ≤ c.height ∧ blockAt c.store 0 = some o ∧
-      verifyChain drvCrypto (some [([1], 1)]) (withBlock c 0 { o with txs := [.put 9 9] }) = none :=
+      verifyChainOld drvCrypto (some [([1], 1)]) (withBlock c 0 { o with txs := [.put 9 9] }) = none ∧
+      verifyChain drvCrypto (some [([1], 1)]) (withBlock c 0 { o with txs := [.put 9 9] }) = some .txRoot :=
   ⟨exChain1, genesisBlock drvCrypto [1] 10,
     Built.step (initChain drvCrypto [] [1] 10) exChain1 exBlock1 (Built.init _ _ _) (by rfl) (by decide) (by decide),
-    by decide, by decide, by decide⟩
+    by decide, by decide, by decide, by decide⟩
+
+/-- FULL STRENGTH for every alteration that keeps the NUMBER of transactions (replace, reorder, any mix), every
+    stored block `0..=height`, every chain length: under `HashInjOn` on the byte strings `compute_tx_root` feeds to
+    SHA-256 for the two lists (`txRootInputs`: the serialised transactions and every inner pair of every level) and
+    `HashLen` (all digests have one length, 32 bytes for SHA-256), `compute_tx_root` is injective on lists of equal
+    length (`txRoot_inj_of_length_eq`), so the alteration is detected.  Together with `merkle_duplicate_witness`
+    this locates the gap of `tamper_detected_transactions_partial` exactly: only alterations that CHANGE the length
+    can go unnoticed, and the duplicated odd tail is one that does. -/
+theorem tamper_detected_transactions (C : Crypto) (reg : Option (List (List Nat × Nat))) (occ : List Nat → Prop)
+    (c : ChainSt) (hinv : Inv C reg c) (hinj : HashInjOn C occ) (n : Nat) (hl : HashLen C n) (hh : 1 ≤ c.height)
+    (i : Nat) (h2 : i ≤ c.height) (o : Block) (ho : blockAt c.store i = some o) (txs' : List Tx)
+    (hlen : txs'.length = o.txs.length)
+    (o1 : ∀ z ∈ txRootInputs C o.txs, occ z) (o2 : ∀ z ∈ txRootInputs C txs', occ z) (hne : txs' ≠ o.txs) :
+    verifyChain C reg (withBlock c i { o with txs := txs' }) ≠ none :=
+  tamper_detected_transactions_partial C reg c hinv hh i h2 o ho txs'
+    (fun h => hne (txRoot_inj_of_length_eq C occ hinj n hl txs' o.txs hlen o2 o1 h))
+
+/-- a crypto whose digests all have length 8 and which is injective on the strings of the example below -/
+def lenCrypto : Crypto := { drvCrypto with hash := fun x => x.length :: (x ++ List.replicate 7 0).take 7 }
+
+def exTxsA : List Tx := [.put 1 1, .put 2 2]
+def exTxsB : List Tx := [.put 1 5, .put 2 2]
+def exOccList : List (List Nat) := txRootInputs lenCrypto exTxsA ++ txRootInputs lenCrypto exTxsB
+
+example : HashInjOn lenCrypto (· ∈ exOccList) := by
+  intro x y hx hy
+  revert y
+  revert x
+  decide
+
+example : HashLen lenCrypto 8 := by
+  intro x
+  simp [lenCrypto]
+
+example : exTxsB.length = exTxsA.length ∧ exTxsB ≠ exTxsA ∧ (∀ z ∈ txRootInputs lenCrypto exTxsA, z ∈ exOccList) ∧
+    (∀ z ∈ txRootInputs lenCrypto exTxsB, z ∈ exOccList) ∧ txRoot lenCrypto exTxsB ≠ txRoot lenCrypto exTxsA := by
+  refine ⟨rfl, by decide, fun z hz => List.mem_append_left _ hz, fun z hz => List.mem_append_right _ hz, by decide⟩
 
 /-- WITNESS: the genesis block's `signature` is neither part of its hash nor verified. -/
 theorem tamper_genesis_signature_witness :
